@@ -33,3 +33,14 @@ Proof.
   destruct (c05_nothing_else_l d h rs Hd H) as (tail & _ & _ & Hlen). exact Hlen.
 Qed.
 Print Assumptions c07_v5_none_invented.
+
+(* exact count on well-formed messages: for EVERY store, EVERY well-formed abstract message and
+   EVERY configuration under which its conversion succeeds, the pipe emits exactly one message per
+   encoded data record -- none for templates, options records or padding *)
+From GF Require Import Spec.EncNF.
+Theorem c07_exact : forall cfg ss ip st m ms ss',
+  wf_msg st m = true ->
+  (forall p tnf st', decode_nf st (encode_nf m) = Ok (p, tnf, st') -> produce_nf cfg ss ip p = (Ok ms, ss')) ->
+  length ms = total_adata (aSets m).
+Proof. exact c07_exact_l. Qed.
+Print Assumptions c07_exact.
